@@ -424,7 +424,7 @@ class CoeffProver:
     def __init__(self, assumptions=()):
         self.zv = [z3.Real(v) for v in VARS]
         self.s = z3.Solver()
-        self.s.set('timeout', 20000)
+        self.s.set('timeout', 60000)
         for a in assumptions:
             self.s.add(a)
         self.queries = 0
